@@ -306,12 +306,62 @@ def inject_existing(wrapper, pos, fault, sel):
     return wrapper["e"], None
 
 
+# ---------------------------------------------------------------------------------------------
+# dead contexts: the analysis must look into code that can never run, whatever makes it dead (a literal condition, a
+# literal short-circuit, an unused binding, an uncalled function, an unselected element, an unused default, a message)
+_NULL = {"k": "null"}
+_B = lambda v: {"k": "bool", "v": v}
+DEAD_PLAIN = [
+    lambda E: {"k": "binary", "op": "LogicAnd", "l": _B(False), "r": E},
+    lambda E: {"k": "binary", "op": "LogicOr", "l": _B(True), "r": E},
+    lambda E: {"k": "if", "cond": _B(False), "then": E, "else": None},
+    lambda E: {"k": "if", "cond": _B(True), "then": dict(_NULL), "else": E},
+    lambda E: {"k": "if", "cond": {"k": "binary", "op": "Eq", "l": {"k": "number", "text": "1"}, "r": {"k": "number", "text": "2"}}, "then": E, "else": dict(_NULL)},
+    lambda E: {"k": "local", "binds": [{"name": "qq_dead", "params": None, "value": E}], "body": dict(_NULL)},
+    lambda E: {"k": "local", "binds": [{"name": "qq_dead", "params": [{"name": "qq_p", "default": None}], "value": E}], "body": dict(_NULL)},
+    lambda E: {"k": "func", "params": [], "body": E},
+    lambda E: {"k": "slice", "e": {"k": "array", "items": [E]}, "start": {"k": "number", "text": "1"}, "end": None, "step": None},
+    lambda E: {"k": "call", "f": {"k": "func", "params": [{"name": "qq_p", "default": E}], "body": dict(_NULL)}, "args": [{"name": None, "e": dict(_NULL)}], "tailstrict": False},
+    lambda E: {"k": "call", "f": {"k": "func", "params": [{"name": "qq_p", "default": dict(_NULL)}], "body": dict(_NULL)}, "args": [{"name": "qq_p", "e": E}], "tailstrict": False},
+    lambda E: {"k": "assert", "assert": {"cond": _B(True), "msg": E}, "body": dict(_NULL)},
+    lambda E: {"k": "index", "e": {"k": "array", "items": [dict(_NULL), E]}, "index": {"k": "number", "text": "0"}},
+    lambda E: {"k": "arraycomp", "body": E, "spec": [{"k": "for", "var": "qq_v", "inner": {"k": "array", "items": []}}]},
+    lambda E: {"k": "arraycomp", "body": dict(_NULL), "spec": [{"k": "for", "var": "qq_v", "inner": {"k": "array", "items": [dict(_NULL)]}}, {"k": "if", "cond": _B(False)}, {"k": "for", "var": "qq_w", "inner": E}]},
+    lambda E: {"k": "binary", "op": "LogicAnd", "l": {"k": "unary", "op": "LogicNot", "e": _B(True)}, "r": E},
+]
+# these put E inside an object (self / $ become legal there): only for faults that do not depend on the object context
+DEAD_IN_OBJECT = [
+    lambda E: {"k": "object", "inside": {"k": "members", "members": [{"k": "field", "name": {"k": "ident", "name": "qq_h"}, "plus": False, "vis": "::", "value": E}]}},
+    lambda E: {"k": "object", "inside": {"k": "members", "members": [{"k": "field", "name": {"k": "expr", "expr": dict(_NULL)}, "plus": False, "vis": ":", "value": E}]}},
+    lambda E: {"k": "object", "inside": {"k": "members", "members": [{"k": "local", "bind": {"name": "qq_dead", "params": None, "value": E}}]}},
+    lambda E: {"k": "object", "inside": {"k": "comp", "locals1": [], "name": {"k": "string", "v": "k"}, "plus": False, "body": E, "locals2": [],
+                                         "spec": [{"k": "for", "var": "qq_v", "inner": {"k": "array", "items": []}}]}},
+]
+OBJECT_SENSITIVE = {"self", "dollar", "superfield", "superindex", "insuper"}
+
+
+def add_dead_context(tree, fault, dead):
+    """dead = [which wrapper, which position (0 = the whole program)]; returns the tree with one sub-expression moved into dead code."""
+    if not dead or dead[0] == 0:
+        return tree
+    wrappers = DEAD_PLAIN + ([] if fault in OBJECT_SENSITIVE else DEAD_IN_OBJECT)
+    w = wrappers[(dead[0] - 1) % len(wrappers)]
+    wrapper = {"k": "paren", "e": tree}
+    pos = positions(wrapper)
+    c, k, _, _ = pos[0] if dead[1] % 3 == 0 else pos[dead[1] % len(pos)]
+    if fault == "pos-after-named" and isinstance(c[k], dict) and c[k].get("_mark"):
+        return tree  # the offending construct is the argument as a whole, not the expression inside it
+    c[k] = w(c[k])
+    return wrapper["e"]
+
+
 @st.composite
 def scope_case(draw):
     c = draw(G.programs(max_depth=draw(st.sampled_from([3, 4]))))
     c["fault"] = draw(st.sampled_from(FAULTS))
     c["sel"] = draw(st.integers(0, 10_000))
     c["choices"] = draw(st.lists(st.integers(0, 1000), min_size=6, max_size=20))
+    c["dead"] = [draw(st.integers(0, 40)), draw(st.integers(0, 10_000))] if draw(st.booleans()) else [0, 0]
     return c
 
 
@@ -325,17 +375,20 @@ def strip_marks(t):
 
 def check_scope(case):
     tree, fault = case["tree"], case["fault"]
+    dead = case.get("dead") or [0, 0]
     if fault == "none":
+        tree = add_dead_context(copy.deepcopy(tree), fault, dead)
         text, _ = P.print_tree(tree, chooser(case["choices"]), "minimal", "normal")
         r = util.request({"op": "eval", "src": text, "want": ["multi"], "fuel": 2_000_000, "max_stack": 2000}, what=text[:400])
         if "err" in r and r["err"].get("phase") in ("lex", "parse", "analyze"):
             raise Violation("fault-free-rejected", f"a correctly scoped program was rejected ({r['err'].get('variant')} {r['err'].get('detail')}): {text[:500]!r}")
         shadow = sum(1 for f in case["features"] if f in ("local", "function", "comprehension", "object-local", "object-comprehension", "default-arg"))
-        return {"nontrivial": shadow >= 2, "labels": ["fault-free"], "sample": text[:300]}
+        return {"nontrivial": shadow >= 2, "labels": ["fault-free"] + (["dead-context"] if dead[0] else []), "sample": text[:300]}
     new, exp = inject(tree, fault, case["sel"])
     if exp is None:
         return {"labels": ["not-applicable:" + fault]}
     variant, name, spanrule, depth = exp
+    new = add_dead_context(new, fault, dead)
     text, etree = P.print_tree(new, chooser(case["choices"]), "minimal", "normal")
     # loading alone must reject it: the faulty part is usually never evaluated
     r = util.request({"op": "eval", "src": text, "want": ["multi"], "fuel": 500_000, "max_stack": 500,
@@ -355,7 +408,7 @@ def check_scope(case):
         want = [s, t_] if spanrule == "node" else ([s, s + 5] if spanrule == "start5" else [t_ - 5, t_])
         if gs != want:
             raise Violation(f"static-error-span:{fault}", f"{variant} reported at bytes {gs}, the offending construct is at {want} in {text[:500]!r}")
-    return {"nontrivial": depth >= 2, "labels": [fault], "sample": text[:300]}
+    return {"nontrivial": depth >= 2 or bool(dead[0]), "labels": [fault] + (["dead-context"] if dead[0] else []), "sample": text[:300]}
 
 
 CHECKS = [
